@@ -1,6 +1,6 @@
 import FmtModel.Py.ReParse
 import FmtModel.Py.Num
-import FmtModel.Generated.Tables
+import FmtModel.Generated.Fmt
 /-
   FmtModel.Engine — model of `fmtutil.formatter.Formatter`: `regex()`, `gen_format`, `parse`,
   `__validate_format`, the priority loop of `__init__` with strict mode and `SlotLevel`, `format`,
